@@ -328,3 +328,49 @@ Proof.
   pose proof (state_after_arrays outs k) as B. destruct (state_after outs k) as [b|]; [|congruence].
   destruct B as (B1 & B2). rewrite B1, B2. repeat split; auto; discriminate.
 Qed.
+
+(* ---- scaling: per-run vectors of rationals with a common denominator c (NumPy float arrays holding
+   dyadic values k/c, mixed freely with integer arrays) are decided by the integer model on c * values:
+   the loop commutes with multiplying every lc / cv entry by c, stops at the same run, raises at the same
+   run, and for c <> 0 the scaled totals determine the totals. ---- *)
+Definition scale_ov (c : Z) (o : option (list Z)) : option (list Z) := option_map (map (Z.mul c)) o.
+Definition scale_run (c : Z) (d : run_data) : run_data :=
+  mkRun (r_success d) (scale_ov c (r_lc d)) (scale_ov c (r_cv d)) (r_w d).
+Definition scale_acc (c : Z) (a : acc) : acc :=
+  mkAcc (a_run a) (a_fail a) (scale_ov c (a_lc a)) (scale_ov c (a_cv a)) (a_ws a).
+Definition scale_outcome (c : Z) (o : outcome) : outcome :=
+  match o with Done a => Done (scale_acc c a) | Mismatch m => Mismatch m | OutOfFuel => OutOfFuel end.
+
+Lemma zip_add_scale c a : forall b, zip_add (map (Z.mul c) a) (map (Z.mul c) b) = map (Z.mul c) (zip_add a b).
+Proof. induction a as [|x a IH]; intros [|y b]; cbn; auto. rewrite IH. f_equal. lia. Qed.
+Lemma arr_step_scale c first s v :
+  arr_step first (scale_ov c s) (scale_ov c v) = option_map (scale_ov c) (arr_step first s v).
+Proof.
+  assert (Z0 : forall l : list Z, map (fun _ => 0%Z) (map (Z.mul c) l) = map (Z.mul c) (map (fun _ => 0%Z) l)).
+  { intros l. rewrite !map_map. apply map_ext. intros _. lia. }
+  unfold arr_step. destruct first, s as [s|], v as [v|]; cbn [scale_ov option_map]; auto;
+    rewrite ?Z0, ?map_length; try (destruct (_ =? _); cbn [option_map scale_ov]; auto; now rewrite zip_add_scale).
+Qed.
+Lemma step_scale c a d : step (scale_acc c a) (scale_run c d) = option_map (scale_acc c) (step a d).
+Proof.
+  unfold step. cbn [scale_acc scale_run a_run a_fail a_lc a_cv a_ws r_lc r_cv r_w r_success].
+  rewrite !arr_step_scale. destruct (arr_step _ (a_lc a) _) as [l|]; cbn [option_map]; auto.
+  destruct (arr_step _ (a_cv a) _) as [v|]; cbn [option_map]; auto.
+Qed.
+Theorem rloop_scale c fuel mr mf outs : forall a,
+  rloop fuel mr mf (fun i => scale_run c (outs i)) (scale_acc c a) = scale_outcome c (rloop fuel mr mf outs a).
+Proof.
+  induction fuel as [|fuel IH]; intros a; cbn [rloop scale_acc a_run a_fail];
+    destruct (guard mr mf (a_run a) (a_fail a)); auto.
+  change (mkAcc (a_run a) (a_fail a) (scale_ov c (a_lc a)) (scale_ov c (a_cv a)) (a_ws a)) with (scale_acc c a).
+  rewrite step_scale. destruct (step a (outs (a_run a))) as [a'|]; cbn [option_map scale_outcome]; auto.
+Qed.
+Theorem run_loop_scale c fuel mr mf outs :
+  run_loop fuel mr mf (fun i => scale_run c (outs i)) = scale_outcome c (run_loop fuel mr mf outs).
+Proof. unfold run_loop. destruct (norm mr mf) as [mr' mf']. exact (rloop_scale c fuel mr' mf' outs acc0). Qed.
+Theorem scale_ov_inj c x y : c <> 0%Z -> scale_ov c x = scale_ov c y -> x = y.
+Proof.
+  intros Hc. destruct x as [x|], y as [y|]; cbn; try discriminate; auto. intros E. injection E as E. f_equal.
+  revert y E. induction x as [|a x IH]; intros [|b y] E; cbn in E; try discriminate; auto.
+  injection E as E1 E2. f_equal; [nia|auto].
+Qed.
